@@ -47,6 +47,10 @@ func TestOracleAcceptsNetHTTP(t *testing.T) {
 		if cl, err := strconv.ParseInt(rec.Header().Get("Content-Length"), 10, 64); err == nil {
 			o.CL = cl
 		}
+		if (p.unitCase || p.overflow) && o.Status == http.StatusRequestedRangeNotSatisfiable {
+			// net/http wants the unit in lower case and numbers that fit an int64
+			return
+		}
 		if !p.ok && o.Status == http.StatusPartialContent {
 			// net/http stops reading a spec once its first position is past the
 			// content, so garbage after it goes unnoticed: not an answer the
@@ -92,6 +96,10 @@ func TestOracleRejects(t *testing.T) {
 		{"wrong total", "bytes=1-4", obs{Status: 206, Header: hdr("Content-Range", "bytes 1-4/11"), CL: 4, Body: []byte("1234")}, "C20/x/inside/content-range-mismatch"},
 		{"unclamped", "bytes=1-40", obs{Status: 206, Header: hdr("Content-Range", "bytes 1-40/10"), CL: 9, Body: []byte("123456789")}, "C20/x/end-past-content/content-range-unclamped"},
 		{"416 for satisfiable", "bytes=1-4", obs{Status: 416, Header: hdr()}, "C20/x/inside/416-although-satisfiable"},
+		{"416 for another letter case", "BYTES=2-5", obs{Status: 416, Header: hdr()}, "C20/x/unit-letter-case/416-although-satisfiable"},
+		{"416 for digits beyond int64", "bytes=0-99999999999999999999", obs{Status: 416, Header: hdr()}, "C20/x/number-beyond-int64/416-although-satisfiable"},
+		{"416 with upstream Content-Range", "bytes=20-", obs{Status: 416, Header: hdr("Content-Range", "bytes */12345")}, "C20/x/answered-416/stale-content-range"},
+		{"416 with upstream length", "bytes=20-", obs{Status: 416, Header: hdr(), CL: 13}, "C20/x/answered-416/416-content-length-mismatch"},
 		{"416 for suffix", "bytes=-4", obs{Status: 416, Header: hdr()}, "C20/x/suffix/416-although-satisfiable"},
 		{"416 for list OWS before a suffix", "bytes=0-1, -3", obs{Status: 416, Header: hdr()}, "C20/x/list-whitespace/416-although-satisfiable"},
 		{"416 for list OWS after an open-ended spec", "bytes=5- ,\t0-1", obs{Status: 416, Header: hdr()}, "C20/x/list-whitespace/416-although-satisfiable"},
@@ -122,6 +130,8 @@ func TestOracleRejects(t *testing.T) {
 		{"bytes=0-1,10-", obs{Status: 416, Header: hdr()}},
 		{"bytes=0-1,10-", obs{Status: 206, Header: hdr("Content-Range", "bytes 0-1/10"), CL: 2, Body: []byte("01")}},
 		{"bytes=abc", obs{Status: 416, Header: hdr()}},
+		{"bytes =0-1", obs{Status: 416, Header: hdr()}},
+		{"bytes=20-", obs{Status: 416, Header: hdr("Content-Range", "bytes */10")}},
 		{"bytes= 0-1", obs{Status: 416, Header: hdr()}},
 		{"bytes=0 -1", obs{Status: 416, Header: hdr()}},
 		{"bytes=0-1,\u00a0-3", obs{Status: 416, Header: hdr()}},
